@@ -72,8 +72,9 @@ func Main(repo, verifDir, property, tier, onlyKey string, t0 time.Time) int {
 
 // Shared caches whole-program analyses between the properties of one process.
 type Shared struct {
-	P *Prog
-	l *LFacts
+	P      *Prog
+	l      *LFacts
+	bodies []*applyBody
 }
 
 func (s *Shared) Lockset() *LFacts {
